@@ -1,6 +1,6 @@
 """Property -> what decides it (units under contract, extra obligation groups, covers, bounded native oracle)."""
 from __future__ import annotations
-from . import native_ode, native_net, native_renorm, rates, templates, conservation, c19, renorm
+from . import native_ode, native_net, native_renorm, native_cfg, native_ids, native_closure, rates, templates, conservation, c19, renorm
 
 ODE_UNIT = ("contracts.ode", "prepare_ode_content")
 
@@ -93,6 +93,37 @@ PROPERTIES = {
                          "pyvc.cmini front end: comments, value-preserving casts and I/O calls dropped; arrays represented by their generic element (only element-wise copy loops occur)",
                          "cusparse Solve / HandleError: no recovery implemented (TODO in the template), outside the claim; odeint PyWrapSolve drops the flag (Python binding only)"],
         "contract_files": ["c19.py"],
+    },
+    "C09": {
+        "level": "other",
+        "units": [],
+        "extra": [native_ids.c09_template_items],
+        "oracle": native_ids.oracle_c09,
+        "explanation": "mixed: (proved, template AST) the C macros, the Python constants module and the Enzo table all enumerate network.species / network.elements in list order with loop.index0, NSPECIES/NELEMENTS are the list lengths, and no other IDX_ definition exists; (bounded) six naming conventions x two back ends rendered and cross-checked: identifiers legal and distinct, macro values a bijection onto 0..NSPECIES-1, python constants and configuration summary agree, two spellings give one slot. Species.alias / Network.species themselves are not under contract yet (regex + table-driven string rewriting); alias legality/injectivity is therefore only bounded.",
+    },
+    "C08": {
+        "level": "other",
+        "units": [],
+        "oracle": native_ids.oracle_c08,
+        "explanation": "bounded stand-in only, as foreseen in DESIGN section 7 (regex tokeniser over a data-dependent pattern list is outside the reach of the contracts): ~10^4 (quick) names generated from a composition over the default and an upper-case-with-replacement element list, prefixes '#' and 'G', labels, counts, charges, grain symbols with group numbers; composition, charge, phase, gas name, rewritten name, is_atom, mass number compared; foreign characters must be rejected. Nothing is counted as proved.",
+    },
+    "C10": {
+        "level": "other",
+        "units": [],
+        "oracle": native_closure.oracle,
+        "explanation": "bounded over input combinations, complete per rendering: for every (format or mixture, grain model, back end) combination of a stated list the sources are rendered by the real TemplateLoader and a name-resolution analysis of the emitted EvalRates*/Fex/Jac/InitRenorm/RenormAbundance bodies checks that every identifier is a local declared earlier exactly once, a NaunetData member, an extern constant that is also defined, a macro, a physics helper, a parameter or a <math.h> function. The per-class registry contract of DESIGN section 5 (C10) is not implemented; g++ is not run (no SUNDIALS/Boost). Nothing is counted as proved.",
+    },
+    "C20": {
+        "level": "other",
+        "units": [],
+        "oracle": native_cfg.oracle_c20,
+        "explanation": "bounded stand-in only: five configurations (modifiers given several times, element replacement + binding energies + yields + grain model, custom bulk prefix, allowed/extra species, a separator inside a modifier value) are written by the real `naunet init --render` and rendered through the API in fresh interpreters; naunet_config.toml is compared field by field with the request and the source trees byte by byte. The option-parsing expressions are not yet under contract (split/strip on structured strings); nothing is counted as proved. tomlkit and cleo are external.",
+    },
+    "C17": {
+        "level": "other",
+        "units": [],
+        "oracle": native_cfg.oracle_c17,
+        "explanation": "bounded stand-in only (byte identity is a hyper-property over process histories): three networks rendered in fresh interpreters under several PYTHONHASHSEED values, twice in one process, and after preludes that build/render other networks with different element lists, prefixes, KROME directives and user binding energies; sha256 of include/ src/ python/ compared. The frame (reads/modifies) obligations of DESIGN section 5 are not implemented; nothing is counted as proved.",
     },
     "C07": {
         "level": "other",
